@@ -100,7 +100,7 @@ func vfcDrawFaults(t *rapid.T, c *vfConsCase, label string, allowTerminal bool) 
 		for j := 0; j < pad; j++ {
 			out = append(out, vfFault{Kind: "ok"})
 		}
-		kinds := []string{"redispatch", "redispatch", "report", "omit", "dropBefore", "delay", "silent"}
+		kinds := []string{"redispatch", "redispatch", "report", "omit", "dropBefore", "delay", "silent", "leaderless", "leaderless"}
 		if c.Brokers >= 2 {
 			kinds = append(kinds, "moveBefore", "moveBefore", "moveAfter")
 		}
@@ -129,6 +129,9 @@ func vfcDrawFaults(t *rapid.T, c *vfConsCase, label string, allowTerminal bool) 
 			} else {
 				f = vfFault{Kind: "dropBefore"}
 			}
+		case "leaderless":
+			// the partition has no leader for the next 1-3 metadata answers: the fetch is answered NOT_LEADER and the first re-dispatch attempts fail
+			f = vfFault{Kind: "ok", LeaderlessFor: rapid.IntRange(2, 9).Draw(t, fl+".leaderlessFor")}
 		case "moveBefore":
 			f = vfFault{Kind: "ok", MoveLeader: "before"} // the leadership check then answers NOT_LEADER by itself
 		case "moveAfter":
